@@ -439,6 +439,8 @@ type Opts struct {
 	// PreBroken: before Serve starts the application makes a Send call that is abandoned inside
 	// an element (its token reader fails after the start tag): the output is left broken
 	PreBroken bool
+	// Watchdog: how long Serve may take before the case is a stall (0 = 10 s); not part of Enc
+	Watchdog time.Duration
 }
 
 // Enc renders the options for the replay lines ("-" = defaults).
@@ -619,7 +621,11 @@ func ServeOpt(opt Opts, ns string, local, remote jid.JID, body []byte, progs []P
 		fw.armed = true
 		fw.mu.Unlock()
 	}
-	done := common.WithTimeout(10*time.Second, func() {
+	wd := 10 * time.Second
+	if opt.Watchdog > 0 {
+		wd = opt.Watchdog
+	}
+	done := common.WithTimeout(wd, func() {
 		res.Panic = common.Recover(func() { res.Err = s.Serve(h) })
 	})
 	if !done {
